@@ -755,6 +755,8 @@ func (e *cenv) hashChecks() {
 	for _, cs := range cases {
 		msg, dst := mkBytes(e.rng, cs.ml, e.rng.Bool()), mkBytes(e.rng, cs.dl, e.rng.Bool())
 		m0, d0 := append([]byte{}, msg...), append([]byte{}, dst...)
+		msg, dst, whole := hostileLayout(msg, dst)
+		w0 := append([]byte{}, whole...)
 		cls := msgClass(cs.ml) + "/" + dstClass(cs.dl)
 		for _, op := range []string{"EncodeToG", "HashToG"} {
 			K, count, call := KE, 1, in.EncodeTo
@@ -772,7 +774,9 @@ func (e *cenv) hashChecks() {
 			if !c.Check(op, K+"/spurious-error/"+cls, err == nil, func() string { return desc() + fmt.Sprintf(": error %v", err) }) {
 				continue
 			}
-			c.Check(op, K+"/input-modified/"+cls, string(msg) == string(m0) && string(dst) == string(d0), func() string { return desc() + ": msg or dst was written" })
+			c.Check(op, K+"/input-modified/"+cls, string(whole) == string(w0), func() string {
+				return desc() + ": msg, dst or the bytes behind them were written (dst, msg and a canary are laid out in one array)"
+			})
 			c.Check(op, K+"/nondeterministic/"+cls, f.Eq(got.X, got2.X) && f.Eq(got.Y, got2.Y), func() string { return desc() + ": two calls, two results" })
 			P := toPt(f, got)
 			{
